@@ -58,6 +58,29 @@ def domain_obligations(m, prefix, paths, spec):
                  key='%s:domain:%s' % (prefix, cls), note='outcome %s exactly on its documented domain' % cls, vacuity=False)
 
 
+def fp_domain(m, prefix, paths, lo_dom):
+    """The documented domain on the COUNTS, decided bit-precisely: at F(11,53) with n, k as bit-vectors (n <= 2^32) an Ok path
+    needs lo_dom <= k <= n - lo_dom, and a TooFew* path needs the opposite. (Over the reals a rule written as n*(k/n) >= 10
+    is indistinguishable from k >= 10; in floating point it is not.)"""
+    FP = ('F', 11, 53, 'bv')
+    bound = [T.mk('ile', n_i, T.iconst(2 ** 32)), T.mk('ile', k_i, T.iconst(2 ** 32))]
+    lo = T.iconst(lo_dom)
+    inside = T.and_(T.mk('ige', k_i, lo), T.mk('ile', k_i, n_i), T.mk('ige', T.mk('isub', n_i, k_i), lo))
+    # the normal quantile enters the Ok paths only through the bounds, not through the path condition of the domain checks;
+    # Interval::new's `low > high` test is dropped from the path condition (it cannot fire inside the domain, C02 order obligations)
+    for p in paths:
+        if p['rk'] != 'return':
+            continue
+        v = p['value']
+        pc = [c for c in p['pc'] if not apps_in(c)]
+        if E.is_ok(v):
+            m.submit('%s:fp-domain:ok-only-inside:%s' % (prefix, KNAME[p['kind']] if p['kind'] is not None else 'any'), pc + bound, inside, sem=FP, key=prefix + ':fp-domain', timeout=120, vacuity=False, solver='cvc5',
+                     note='bit-precise: an Ok outcome needs %d <= k <= n - %d (n <= 2^32)' % (lo_dom, lo_dom))
+        elif E.is_err(v, 'TooFewSuccesses') or E.is_err(v, 'TooFewFailures'):
+            m.submit('%s:fp-domain:rejects-only-outside:%s' % (prefix, mir.VARIANTS['CIError'][v[3][0][2]]), pc + bound, T.not_(inside), sem=FP, key=prefix + ':fp-domain', timeout=120, vacuity=False, solver='cvc5',
+                     note='bit-precise: TooFew* only outside the documented domain (n <= 2^32)')
+
+
 def wilson(ctx, m):
     paths = proportion_paths(m, 'ci_wilson')
     ctx.extra['ci_wilson_paths'] = len(paths)
@@ -67,6 +90,7 @@ def wilson(ctx, m):
             'TooFewFailures': T.and_(T.mk('ile', k_i, n_i), T.mk('ige', k_i, two), T.mk('ilt', T.mk('isub', n_i, k_i), two)),
             'Ok': T.and_(T.mk('ige', k_i, two), T.mk('ile', k_i, n_i), T.mk('ige', T.mk('isub', n_i, k_i), two))}
     domain_obligations(m, 'C02:wilson', paths, spec)
+    fp_domain(m, 'C02:wilson', paths, 2)
     dom = [T.mk('fge', k_f, T.fconst(2)), T.mk('fge', T.mk('fsub', n_f, k_f), T.fconst(2))]
     phat = T.mk('fdiv', k_f, n_f)
     seen = set()
@@ -120,6 +144,7 @@ def wald(ctx, m):
             'TooFewFailures': T.and_(T.mk('ile', k_i, n_i), T.mk('ige', k_i, ten), T.mk('ilt', T.mk('isub', n_i, k_i), ten)),
             'Ok': T.and_(T.mk('ige', k_i, ten), T.mk('ile', k_i, n_i), T.mk('ige', T.mk('isub', n_i, k_i), ten))}
     domain_obligations(m, 'C02:z_normal', paths, spec)
+    fp_domain(m, 'C02:z_normal', paths, 10)
     phat = T.mk('fdiv', k_f, n_f)
     W = T.var('W')
     inner = T.mk('fdiv', T.mk('fmul', phat, T.mk('fsub', T.fconst(1), phat)), n_f)
